@@ -1216,12 +1216,17 @@ fn lower_expr_with_args(
                             // A parenthesised callee is called as a whole: `(a + b)(c)` is not
                             // `a + b(c)`, and `(if c { f } else { g })(x)` calls the selected function.
                             let func_expr = lower_expr(ctx, other)?;
-                            if matches!(
-                                func_expr,
-                                ast::Expr::EPath { .. }
-                                    | ast::Expr::EConstr { .. }
-                                    | ast::Expr::EField { .. }
-                            ) {
+                            // `(f)()` is a call too: with no argument at all there is nothing to
+                            // re-attach, so the call is built here.
+                            let has_args = !(args.is_empty() && trailing_args.is_empty());
+                            if has_args
+                                && matches!(
+                                    func_expr,
+                                    ast::Expr::EPath { .. }
+                                        | ast::Expr::EConstr { .. }
+                                        | ast::Expr::EField { .. }
+                                )
+                            {
                                 let mut combined_args = args;
                                 combined_args.extend(trailing_args);
                                 apply_trailing_args(
